@@ -323,7 +323,8 @@ class Stacker(Transformer):
         )
 
         # Set dimensions and coordinates
-        self.dims_in = X.dims
+        # Dataset.dims is a mapping, which cannot be stored as an attribute
+        self.dims_in = tuple(X.dims)
         self.coords_in = {dim: X.coords[dim] for dim in X.dims}
 
         return self
